@@ -1,4 +1,5 @@
 import Fzf.Lemmas.Quote
+import Fzf.Lemmas.Expand
 /-
 C12 — placeholders expand to shell words that evaluate back to the original text.
 Property theorems only.
@@ -33,6 +34,25 @@ theorem C12_fish_roundtrip (s : Str) : fishQuoted (quoteEntryFish s) = some s :=
 /-- The tmux re-launch quotes every argument with the same escaper. -/
 theorem C12_tmux_args_roundtrip (args : List Str) : words (joinWith 32 (args.map quoteEntry)) = some args :=
   C12_join_roundtrip args
+
+/-- **A whole expanded template evaluates to what its placeholders stand for.** For a command
+    template of blank-separated parts — `{}`, `{+}`, `{q}` and literal words of plain characters —
+    and any query, current item and selection (any bytes at all): the POSIX word splitting of
+    `replacePlaceholder`'s result yields, in order, the literal words, the current item for `{}`,
+    every selected item in selection order for `{+}` (one word per item) and the query for `{q}`.
+    Nothing is left for the shell to interpret; no item is split, merged or dropped. -/
+theorem C12_template_evaluates (cx : Placeholder.Ctx) (ps : List Placeholder.Part) (hok : ∀ p ∈ ps, p.ok) :
+    words (Placeholder.expand cx (ps.map Placeholder.Part.text)) = some (ps.flatMap (Placeholder.Part.denote cx)) :=
+  Placeholder.expand_words cx ps hok
+
+/-- `echo {} -- {+} {q}` with a current item `a b`, the selection `$(x)`, `'`, and the query `;rm`:
+    five words of data after `echo`, as they are. -/
+example :
+    let cx : Placeholder.Ctx :=
+      { query := [59, 114, 109], current := some ([97, 32, 98], 0),
+        selected := [([36, 40, 120, 41], 3), ([39], 1)], delim := .awk, isSpace := fun c => c == 32 }
+    words (Placeholder.expand cx [[101, 99, 104, 111], [123, 125], [45, 45], [123, 43, 125], [123, 113, 125]])
+      = some [[101, 99, 104, 111], [97, 32, 98], [45, 45], [36, 40, 120, 41], [39], [59, 114, 109]] := by decide
 
 example : words (quoteEntry [36, 40, 114, 109, 41, 39, 59, 10, 96]) = some [[36, 40, 114, 109, 41, 39, 59, 10, 96]] := by decide
 example : words [36, 40, 114, 109, 41] = none := by decide   -- unquoted data would be interpreted
